@@ -632,3 +632,61 @@ def combine_preserves_units(tier, rng, rep):
                 rep.case(key=(t, cls, sa, sb), nontrivial=cls.endswith("Polygon"), sample=inp if (t, cls, sa) == (0, "HypPolygon", (k,)) and sb == (k,) else None)
                 if len(rep.failures) >= 3:
                     return
+
+
+@bounded(P, "stacking_preserves_units", functions=[PR + "ProjectiveObject._construct_from_object", PR + "ProjectiveObject.__init__", PR + "ProjectiveObject.__iter__", PR + "ProjectiveObject.__len__"],
+         note="Cls([obj_1, ..., obj_k]) for k = 1, 2, 3 (lists, tuples, generators) and nested stacks: composite shape (k,) + shape of the members, entry i is member i (primary and derived "
+              "data), len() and iteration agree; a stack of one map applied pairwise keeps its axis")
+def stacking_preserves_units(tier, rng, rep):
+    N = 30 if tier == 'thorough' else 8
+    rep.rule = "classes Point, Segment, hyperbolic Polygon, TangentVector, Isometry; members of shape () and (2,); k = 1, 2, 3; containers list / tuple / generator; stack of stacks"
+    rep.bound = f"{N} rounds x 5 classes x 3 k x 2 member shapes"
+
+    def klein(shape, n=2):
+        v = rng.normal(size=shape + (n,))
+        return v / np.linalg.norm(v, axis=-1, keepdims=True) * rng.uniform(0.05, 0.9, size=shape + (1,))
+
+    def mk(cls, shape):
+        if cls == "Point":
+            return h.Point(klein(shape), model="klein")
+        if cls == "Segment":
+            return h.Segment(h.Point(klein(shape + (2,)), model="klein"))
+        if cls == "HypPolygon":
+            return h.Polygon(h.Point(klein(shape + (4,)), model="klein"))
+        if cls == "TangentVector":
+            return h.TangentVector(h.Point(klein(shape), model="klein"), rng.normal(size=shape + (3,)))
+        ms = np.array([np.asarray((h.Isometry.standard_rotation(rng.uniform(0, 6)) @ h.Isometry.standard_loxodromic(2, rng.uniform(0.5, 2))).proj_data) for _ in range(int(np.prod(shape)) or 1)])
+        return h.Isometry(ms.reshape(shape + (3, 3)))
+    for t in range(N):
+        for cls in ("Point", "Segment", "HypPolygon", "TangentVector", "Isometry"):
+            for k in (1, 2, 3):
+                for mshape in ((), (2,)):
+                    members = [mk(cls, mshape) for _ in range(k)]
+                    cont = ["list", "tuple", "generator"][(t + k) % 3]
+                    inp = {"class": cls, "k": k, "member_shape": list(mshape), "container": cont}
+
+                    def body():
+                        arg = list(members) if cont == "list" else tuple(members) if cont == "tuple" else (m_ for m_ in members)
+                        S = type(members[0])(arg)
+                        if S.shape != (k,) + mshape:
+                            rep.fail("stack_shape", f"{cls}({cont} of {k} objects of shape {mshape}) has composite shape {S.shape}, expected {(k,) + mshape}", inp); return
+                        if len(S) != k:
+                            rep.fail("stack_shape", f"len = {len(S)}", inp); return
+                        for i, (u, it) in enumerate(zip(members, S)):
+                            for cand in (S[i], it):
+                                if type(cand) is not type(u) or not np.array_equal(np.asarray(cand.proj_data), np.asarray(u.proj_data)):
+                                    rep.fail("stacking_preserves_units_and_order", f"entry {i}", inp); return
+                                if u.aux_data is not None and not np.allclose(np.asarray(cand.aux_data), np.asarray(u.aux_data), rtol=0, atol=1e-12):
+                                    rep.fail("stacking_preserves_units_and_order", f"entry {i}: derived data", inp); return
+                        SS = type(members[0])([S, S])
+                        if SS.shape != (2, k) + mshape:
+                            rep.fail("stack_shape", f"stack of two stacks: {SS.shape}", inp); return
+                        if cls == "Isometry" and mshape == ():
+                            P3 = h.Point(klein((3,)), model="klein")
+                            out = S.apply(P3, broadcast="pairwise")
+                            if out.shape != (3, k):
+                                rep.fail("pairwise_outer_product_shape", f"{k} stacked map(s) applied pairwise to 3 points: shape {out.shape}, expected {(3, k)}", inp); return
+                    rep.attempt("stack_runs", inp, body)
+                    rep.case(key=(t, cls, k, mshape), nontrivial=k == 1, sample=inp if (t, cls, k, mshape) == (0, "Point", 1, ()) else None)
+                    if len(rep.failures) >= 3:
+                        return
